@@ -1,7 +1,7 @@
 (** C14: geometric coherence and orientation symmetry of the layout model
     ([Model/Layout.v]). *)
 From Coq Require Import List Bool Arith QArith Qminmax Lia Lqa.
-From SR Require Import Base.PathB Model.Recon Model.Branches Model.Layout.
+From SR Require Import Base.PathB Model.Recon Model.Branches Model.Layout Proofs.PathFacts Proofs.ReconProofs Proofs.BranchesProofs.
 Import ListNotations.
 Local Open Scope Q_scope.
 
@@ -631,4 +631,377 @@ Proof.
   split; [exact OV|]. split; [apply roverlap_not_disjoint; exact OV|]. split.
   - repeat split; vm_compute; discriminate.
   - intros [H _]. vm_compute in H. apply H. reflexivity.
+Qed.
+
+
+(** * The keys of the layout are those of the branch model (C13) *)
+Definition key_of_slay (sl : slay) : list anchor * list anchor := (map fst (s_anchors sl), map fst (s_branches sl)).
+Definition key_of_sub (s : sublayout) : list anchor * list anchor := (map fst (l_anchors s), map d_id (l_branches s)).
+(* (anchor set, branch keys) of species [X] according to Model/Branches.v *)
+Definition keys_at (X : path) (ops : list op) : list anchor * list anchor :=
+  (match run_anchors X ops [] with
+   | Some fin => filter (fun a => amem a fin) (map b_id (branches_at X ops))
+   | None => []
+   end, map b_id (branches_at X ops)).
+
+Lemma step_V_ids P st bs st' : step_V P st bs = Some st' ->
+  map fst (done st') = map fst (done st) ++ [b_id (fst bs)].
+Proof.
+  destruct bs as [b [w h]]. unfold step_V. simpl. intros E.
+  assert (forall a c r0, map fst (done (push st a c b r0)) = map fst (done st) ++ [b_id b]) as K
+    by (intros; unfold push; simpl; now rewrite map_app).
+  destruct (b_kind b); try (inversion E; subst; apply K).
+  - destruct (look st (b_left b)); [|discriminate]. destruct (look st (b_right b)); [|discriminate].
+    inversion E; subst; apply K.
+  - destruct (look st (b_left b)); [|discriminate]. inversion E; subst; apply K.
+Qed.
+
+Lemma run_V_ids P l : forall st st', run_steps (step_V P) st l = Some st' ->
+  map fst (done st') = map fst (done st) ++ map (fun bs => b_id (fst bs)) l.
+Proof.
+  induction l as [|x l IH]; intros st st' E; simpl in E.
+  - inversion E; subst. simpl. now rewrite app_nil_r.
+  - destruct (step_V P st x) as [st1|] eqn:S1; [|discriminate].
+    rewrite (IH _ _ E), (step_V_ids _ _ _ _ S1), <- app_assoc. reflexivity.
+Qed.
+
+Lemma anchors_V_keys ancs brs : map fst (anchors_V ancs brs) = filter (fun a => amem a ancs) (map fst brs).
+Proof.
+  induction brs as [|e brs IH]; [reflexivity|].
+  change (anchors_V ancs (e :: brs)) with
+    ((if amem (fst e) ancs then [(fst e, (fst (center (snd (snd e))), 0))] else []) ++ anchors_V ancs brs).
+  rewrite map_app. cbn [map filter]. destruct (amem (fst e) ancs); cbn [map app fst]; [f_equal|]; exact IH.
+Qed.
+
+Lemma species_V_keys P l ancs sl : species_V P l ancs = Some sl ->
+  key_of_slay sl = (filter (fun a => amem a ancs) (map (fun bs => b_id (fst bs)) l), map (fun bs => b_id (fst bs)) l).
+Proof.
+  unfold species_V. destruct (run_steps (step_V P) (init P) l) as [st|] eqn:R; [|discriminate].
+  intros E; inversion E; subst. unfold key_of_slay, shifted. simpl. rewrite !map_map. simpl.
+  pose proof (run_V_ids P l _ _ R) as I. simpl in I.
+  change (map (fun x : anchor * pos => fst x) (anchors_V ancs (done st))) with (map fst (anchors_V ancs (done st))).
+  change (map (fun x : anchor * (kind * rect) => fst x) (done st)) with (map fst (done st)).
+  now rewrite anchors_V_keys, I.
+Qed.
+
+Lemma zip_sizes_fst bs : forall sizes, map fst (fst (zip_sizes bs sizes)) = bs.
+Proof.
+  induction bs as [|b bs IH]; intros sizes; simpl; auto.
+  destruct sizes as [|s sizes].
+  - specialize (IH []). destruct (zip_sizes bs []) as [z rest]. simpl in *. now rewrite IH.
+  - specialize (IH sizes). destruct (zip_sizes bs sizes) as [z rest]. simpl in *. now rewrite IH.
+Qed.
+
+Lemma measure_all_spec ops order : forall sizes,
+  map fst (measure_all ops order sizes) = order /\
+  forall X l, In (X, l) (measure_all ops order sizes) -> map fst l = branches_at X ops.
+Proof.
+  induction order as [|Y order IH]; intros sizes; simpl; [split; auto; intros ? ? []|].
+  pose proof (zip_sizes_fst (branches_at Y ops) sizes) as Z.
+  destruct (zip_sizes (branches_at Y ops) sizes) as [z rest]. simpl in *.
+  destruct (IH rest) as [A B]. split; [now rewrite A|].
+  intros X l [E|H]; [inversion E; subst; auto|eauto].
+Qed.
+
+Lemma all_species_V_find P ops m : forall lays, all_species (species_V P) ops m = Some lays ->
+  NoDup (map fst m) -> forall X l, In (X, l) m ->
+  exists fin sl, run_anchors X ops [] = Some fin /\ pfind X lays = Some sl /\
+    species_V P l (filter (fun a => amem a fin) (map b_id (branches_at X ops))) = Some sl.
+Proof.
+  induction m as [|[Y l0] m IH]; intros lays E ND X l H; simpl in E; [destruct H|].
+  destruct (run_anchors Y ops []) as [fin|] eqn:RA; [|discriminate].
+  destruct (species_V P l0 _) as [s0|] eqn:SV; [|discriminate].
+  destruct (all_species (species_V P) ops m) as [rest|] eqn:AS; [|discriminate].
+  inversion E; subst. simpl in ND. inversion ND as [|? ? NI ND']; subst. simpl.
+  destruct H as [H|H].
+  - inversion H; subst. rewrite path_eqb_refl. eauto.
+  - destruct (path_eqb_spec X Y) as [->|NE].
+    + exfalso. apply NI. apply in_map_iff. exists (Y, l). auto.
+    + eapply IH; eauto.
+Qed.
+
+Lemma filter_filter_amem (fin ids : list anchor) :
+  filter (fun a => amem a (filter (fun a0 => amem a0 fin) ids)) ids = filter (fun a => amem a fin) ids.
+Proof.
+  apply filter_ext_in. intros a Ha.
+  destruct (amem a fin) eqn:E.
+  - apply amem_In. apply filter_In. auto.
+  - destruct (amem a (filter (fun a0 => amem a0 fin) ids)) eqn:E'; auto.
+    apply amem_In in E'. apply filter_In in E' as [_ E']. congruence.
+Qed.
+
+Lemma d_id_dbranch_V c e : d_id (dbranch_V c e) = fst e.
+Proof. destruct e as [a [k r0]]. unfold dbranch_V. simpl. destruct k; reflexivity. Qed.
+
+Lemma key_place_V i R : key_of_sub (place_V i R) = key_of_slay (i_lay i).
+Proof.
+  unfold key_of_sub, key_of_slay, place_V. simpl. rewrite !map_map. simpl. f_equal.
+  apply map_ext. intros e. apply d_id_dbranch_V.
+Qed.
+
+Lemma i_lay_sizes_V P lays S X : i_lay (iinfo (sizes_V P lays S X)) = lays X.
+Proof. destruct S; simpl; destruct (trunk_dims_V P (lays X)) as [[tw th] fk]; reflexivity. Qed.
+
+Lemma flatten_keys_V P lays S : forall X R,
+  map key_of_sub (flatten (absolute place_V (sizes_V P lays S X) R)) = map (fun p => key_of_slay (lays (X ++ p))) (snodes S).
+Proof.
+  induction S as [|l IHl r IHr]; intros X R.
+  - simpl. destruct (trunk_dims_V P (lays X)) as [[tw th] fk]. simpl. now rewrite key_place_V, app_nil_r.
+  - pose proof (i_lay_sizes_V P lays (SNode l r) X) as IL. simpl in *.
+    destruct (trunk_dims_V P (lays X)) as [[tw th] fk]. simpl in *.
+    rewrite key_place_V. simpl. rewrite app_nil_r. f_equal.
+    rewrite !map_app, IHl, IHr, !map_map. f_equal; apply map_ext; intros p; now rewrite <- app_assoc.
+Qed.
+
+Lemma layout_keys_V P S r sizes t ops : all_ops S r = Some ops -> layout Vertical P S r sizes = Some t ->
+  map key_of_sub (flatten t) = map (fun X => keys_at X ops) (snodes S).
+Proof.
+  intros AO. unfold layout. rewrite AO.
+  destruct (all_species (species_V P) ops (measure_all ops (spost S) sizes)) as [lays|] eqn:AS; [|discriminate].
+  intros E; inversion E; subst. clear E.
+  rewrite (flatten_keys_V P _ S [] _). apply map_ext_in. intros X HX. simpl.
+  destruct (measure_all_spec ops (spost S) sizes) as [MF MB].
+  assert (In X (spost S)) as HP by (apply spost_valid; now apply snodes_valid).
+  rewrite <- MF in HP. apply in_map_iff in HP as [[X' l] [EX HI]]. simpl in EX. subst X'.
+  destruct (all_species_V_find P ops _ lays AS ltac:(rewrite MF; apply spost_nodup) X l HI) as [fin [sl [RA [PF SV]]]].
+  rewrite PF. rewrite (species_V_keys _ _ _ _ SV). unfold keys_at. rewrite RA.
+  assert (map (fun bs : branch * size => b_id (fst bs)) l = map b_id (branches_at X ops)) as ->.
+  { rewrite <- (MB X l HI), map_map. reflexivity. }
+  now rewrite filter_filter_amem.
+Qed.
+
+Lemma flatten_t t : flatten (t_ltree t) = map t_sub (flatten t).
+Proof. induction t as [s|s l IHl r IHr]; simpl; auto. now rewrite map_app, IHl, IHr. Qed.
+Lemma key_t_sub s : key_of_sub (t_sub s) = key_of_sub s.
+Proof. unfold key_of_sub, t_sub. simpl. now rewrite !map_map. Qed.
+
+(** the anchors and branches of every species in the computed layout are keyed exactly by the
+    anchor set and the branch dict of the branch model *)
+Theorem layout_keys o P S r sizes t ops : all_ops S r = Some ops -> layout o P S r sizes = Some t ->
+  map key_of_sub (flatten t) = map (fun X => keys_at X ops) (snodes S).
+Proof.
+  intros AO. destruct o; [now apply layout_keys_V|].
+  rewrite mirror. destruct (layout Vertical P S r (map tp sizes)) as [t0|] eqn:E; [|discriminate].
+  intros K; inversion K; subst. rewrite flatten_t, map_map.
+  rewrite <- (layout_keys_V P S r (map tp sizes) t0 ops AO E). apply map_ext. intros s. apply key_t_sub.
+Qed.
+
+Lemma is_anchor_keys X ops a : is_anchor X ops a -> In a (fst (keys_at X ops)).
+Proof.
+  intros [bs [ancs [E I]]]. unfold species_state in E. unfold keys_at.
+  destruct (run_anchors X ops []) as [fin|]; [|discriminate]. inversion E; subst. exact I.
+Qed.
+
+(** every anchor referenced by a drawn branch exists: the layout has the keys of the branch
+    model, in which every reference is to an existing anchor / branch (C13) *)
+Theorem anchors_exist_layout o P S O r sizes t : valid_rec S O r -> layout o P S r sizes = Some t ->
+  exists ops, all_ops S r = Some ops /\
+    map key_of_sub (flatten t) = map (fun X => keys_at X ops) (snodes S) /\
+    (forall X b, In b (branches_at X ops) -> branch_refs_ok r ops X b) /\
+    (forall X a, is_anchor X ops a -> In a (fst (keys_at X ops))).
+Proof.
+  intros V E. destruct (all_ops_total S O r V) as [ops AO]. exists ops. split; auto.
+  split; [eapply layout_keys; eauto|]. split; [apply (anchors_exist S O r ops V AO)|intros X a; apply is_anchor_keys].
+Qed.
+
+(** * The layout is defined on every valid reconciliation *)
+(* what a branch looks up in [_layout_branches]: duplications both children, transfers the conserved one *)
+Definition needs (b : branch) (seen : list anchor) : Prop :=
+  match b_kind b with
+  | KDup => (exists l, b_left b = Some l /\ In l seen) /\ (exists r, b_right b = Some r /\ In r seen)
+  | KTr => exists l, b_left b = Some l /\ In l seen
+  | _ => True
+  end.
+
+Lemma needs_mono b seen seen' : incl seen seen' -> needs b seen -> needs b seen'.
+Proof.
+  intros I. unfold needs. destruct (b_kind b); auto.
+  - intros [[l [A B]] [r [C D]]]. split; eauto.
+  - intros [l [A B]]. eauto.
+Qed.
+
+Fixpoint refs_before (seen : list anchor) (bs : list branch) : Prop :=
+  match bs with [] => True | b :: t => needs b seen /\ refs_before (b_id b :: seen) t end.
+
+Lemma refs_before_mono bs : forall seen seen', incl seen seen' -> refs_before seen bs -> refs_before seen' bs.
+Proof.
+  induction bs as [|b t IH]; intros seen seen' I; simpl; auto. intros [A B]. split.
+  - eapply needs_mono; eauto.
+  - eapply IH; [|exact B]. intros z [->|H]; [now left|right; auto].
+Qed.
+
+Fixpoint wflook (X : path) (seen : list anchor) (ops : list op) : Prop :=
+  match ops with
+  | [] => True
+  | Add Y b :: t => (path_eqb Y X = true -> needs b seen) /\ wflook X (if path_eqb Y X then b_id b :: seen else seen) t
+  | Rem _ _ :: t => wflook X seen t
+  end.
+
+Lemma wflook_mono X ops : forall seen seen', incl seen seen' -> wflook X seen ops -> wflook X seen' ops.
+Proof.
+  induction ops as [|[Y b|Y a] t IH]; intros seen seen' I; simpl; auto.
+  - intros [A B]. split; [intros E; eapply needs_mono; eauto|].
+    eapply IH; [|exact B]. destruct (path_eqb Y X); auto. intros z [->|H]; [now left|right; auto].
+  - apply IH; auto.
+Qed.
+
+Lemma wflook_app X l1 : forall seen l2,
+  wflook X seen l1 -> wflook X (add_ids X l1 ++ seen) l2 -> wflook X seen (l1 ++ l2).
+Proof.
+  induction l1 as [|[Y b|Y a] t IH]; intros seen l2; simpl; auto.
+  - intros [H0 H1] H2. split; auto. apply IH; auto. unfold add_ids in *. simpl in H2.
+    destruct (path_eqb Y X); auto. eapply wflook_mono; [|exact H2].
+    intros z. simpl. rewrite !in_app_iff. simpl. tauto.
+Qed.
+
+Lemma wflook_losses X ops : forall seen,
+  (forall b, In (Add X b) ops -> b_kind b = KLoss \/ b_kind b = KLeaf \/ b_kind b = KSpe) -> wflook X seen ops.
+Proof.
+  induction ops as [|[Y b|Y a] t IH]; intros seen H; simpl; auto.
+  - split.
+    + intros E. apply path_eqb_true_iff in E. subst. unfold needs.
+      destruct (H b (or_introl eq_refl)) as [K|[K|K]]; rewrite K; exact I.
+    + apply IH. intros b' I'. apply H. now right.
+  - apply IH. intros b' I'. apply H. now right.
+Qed.
+
+Lemma wflook_refs X ops : forall seen, wflook X seen ops -> refs_before seen (branches_at X ops).
+Proof.
+  induction ops as [|[Y b|Y a] t IH]; intros seen; simpl; auto.
+  intros [A B]. destruct (path_eqb Y X); simpl; auto.
+Qed.
+
+Lemma chain_kind g e base Y b : forall k, In (Add Y b) (chain_ops g k e base) -> b_kind b = KLoss.
+Proof. intros k H. now destruct (chain_clause _ _ _ _ _ _ H). Qed.
+
+(* during the turn of another species, only loss branches are inserted into [X] *)
+Lemma turn_adds X Z r : forall p b, noinv r -> Z <> X -> In (Add X b) (turn_ops Z p r) -> b_kind b = KLoss.
+Proof.
+  induction r as [s|s a IHa c IHc]; intros p b N NE.
+  - unfold turn_ops. simpl. destruct (path_eqb_spec s Z); simpl; [|tauto].
+    intros [H|[]]. inversion H; subst. congruence.
+  - destruct N as [E [Na Nc]]. rewrite turn_ops_node, !in_app_iff. intros [H|[H|H]]; eauto.
+    destruct (path_eqb_spec s Z); [|destruct H]. subst.
+    destruct (nops_shape p Z a c E) as [h [Hh Eh]]. rewrite Eh in H.
+    unfold shape_ops, cops in H. rewrite !in_app_iff in H. destruct H as [H|[H|[H|H]]].
+    + eapply chain_kind; eauto.
+    + eapply chain_kind; eauto.
+    + inversion H; subst. congruence.
+    + destruct (shape_rems _ _ _ _ _ Hh _ H) as [a0 Ea]. discriminate.
+Qed.
+
+Lemma top_seen_L X p a c h (A B : list anchor) :
+  shape_ok p X (root a) (root c) h -> bL h = X -> tL h = X ++ dL h ->
+  (root a = X -> In (p ++ [false], 0%nat) A) -> (root c = X -> In (p ++ [true], 0%nat) B) ->
+  In (cL h, length (dL h)) (add_ids X (cops (cL h) (dL h) (bL h))) \/ In (cL h, length (dL h)) A \/ In (cL h, length (dL h)) B.
+Proof.
+  intros Hh BL TL HA HB. destruct (shape_side _ _ _ _ _ Hh) as [x [CL [TLx _]]].
+  destruct (dL h) as [|y d'] eqn:DL.
+  - rewrite app_nil_r in TL. rewrite CL. right. destruct x; simpl in TLx; [right; apply HB|left; apply HA]; congruence.
+  - left. apply add_ids_In. rewrite <- DL.
+    destruct (cops_top (cL h) (dL h) (bL h)) as [b [Ib Eb]]; [rewrite DL; discriminate|].
+    rewrite BL in Ib at 1. exists b. split; auto.
+Qed.
+
+Lemma top_seen_R X p a c h (A B : list anchor) :
+  shape_ok p X (root a) (root c) h -> bR h = X -> tR h = X ++ dR h ->
+  (root a = X -> In (p ++ [false], 0%nat) A) -> (root c = X -> In (p ++ [true], 0%nat) B) ->
+  In (cR h, length (dR h)) (add_ids X (cops (cR h) (dR h) (bR h))) \/ In (cR h, length (dR h)) A \/ In (cR h, length (dR h)) B.
+Proof.
+  intros Hh BR TR HA HB. destruct (shape_side _ _ _ _ _ Hh) as [x [_ [_ [CR TRx]]]].
+  destruct (dR h) as [|y d'] eqn:DR.
+  - rewrite app_nil_r in TR. rewrite CR. right. destruct x; simpl in TRx; [left; apply HA|right; apply HB]; congruence.
+  - left. apply add_ids_In. rewrite <- DR.
+    destruct (cops_top (cR h) (dR h) (bR h)) as [b [Ib Eb]]; [rewrite DR; discriminate|].
+    rewrite BR in Ib at 1. exists b. split; auto.
+Qed.
+
+Lemma wflook_rems X l seen : (forall o, In o l -> exists Y a, o = Rem Y a) -> wflook X seen l.
+Proof.
+  induction l as [|o t IH]; intros H; simpl; auto.
+  destruct (H o) as [Y [a ->]]; [now left|]. apply IH. intros; apply H; now right.
+Qed.
+
+Lemma turn_look X r : forall p seen, noinv r -> wflook X seen (turn_ops X p r).
+Proof.
+  induction r as [s|s a IHa c IHc]; intros p seen N.
+  - unfold turn_ops. simpl. destruct (path_eqb s X) eqn:E; simpl; auto; rewrite ?E; split; auto; intros _; exact I.
+  - destruct N as [E [Na Nc]]. rewrite turn_ops_node.
+    apply wflook_app; [apply IHa; auto|]. apply wflook_app; [apply IHc; auto|].
+    destruct (path_eqb_spec s X); [|simpl; auto]. subst s.
+    destruct (nops_shape p X a c E) as [h [Hh ->]]. unfold shape_ops.
+    apply wflook_app; [apply wflook_losses; intros b Hb; left; eapply chain_kind; exact Hb|].
+    apply wflook_app; [apply wflook_losses; intros b Hb; left; eapply chain_kind; exact Hb|].
+    simpl. destruct (path_eqb_spec X X); [|congruence]. split.
+    + intros _. unfold needs. simpl.
+      pose proof (proj2 (turn_wf X a (p ++ [false]) [] Na)) as HA.
+      pose proof (proj2 (turn_wf X c (p ++ [true]) [] Nc)) as HB.
+      pose proof Hh as Hh2. destruct Hh2 as [_ Hh2].
+      destruct (event X (root a) (root c)) eqn:EV; simpl; auto.
+      * destruct Hh2 as [BL [BR [TL [TR _]]]].
+        pose proof (top_seen_L X p a c h _ _ Hh BL TL HA HB) as SL.
+        pose proof (top_seen_R X p a c h _ _ Hh BR TR HA HB) as SR.
+        split; eexists; (split; [reflexivity|]); rewrite !in_app_iff; tauto.
+      * destruct Hh2 as [BL [TL _]].
+        pose proof (top_seen_L X p a c h _ _ Hh BL TL HA HB) as SL.
+        eexists; (split; [reflexivity|]); rewrite !in_app_iff; tauto.
+      * destruct Hh2 as [BL [TL _]].
+        pose proof (top_seen_L X p a c h _ _ Hh BL TL HA HB) as SL.
+        eexists; (split; [reflexivity|]); rewrite !in_app_iff; tauto.
+    + apply wflook_rems. intros o Ho. destruct (shape_rems _ _ _ _ _ Hh _ Ho) as [a0 ->]. eauto.
+Qed.
+
+Lemma ops_look X r (L : list path) : noinv r -> forall seen, wflook X seen (flat_map (fun Z => turn_ops Z [] r) L).
+Proof.
+  intros N. induction L as [|Z L IH]; intros seen; simpl; auto.
+  apply wflook_app; auto. destruct (path_eqb_spec Z X).
+  - subst. apply turn_look; auto.
+  - apply wflook_losses. intros b Hb. left. eapply turn_adds; eauto.
+Qed.
+
+(* with every reference pointing backwards, [_layout_branches] meets no missing key *)
+Lemma look_some st k : In k (map fst (done st)) -> exists r0, look st (Some k) = Some r0.
+Proof.
+  unfold look. induction (done st) as [|[k' [kd r0]] l IH]; simpl; [tauto|].
+  destruct (anchor_eqb_spec k k'); [eauto|]. intros [H|H]; [congruence|]. auto.
+Qed.
+
+Lemma run_V_defined P l : forall st, refs_before (map fst (done st)) (map fst l) ->
+  exists st', run_steps (step_V P) st l = Some st'.
+Proof.
+  induction l as [|[b [w h]] l IH]; intros st RB; [simpl; eauto|].
+  cbn [run_steps]. simpl in RB. destruct RB as [ND RB].
+  match goal with |- context [step_V ?pp ?ss ?xx] => assert (exists st1, step_V pp ss xx = Some st1) as [st1 S1] end.
+  { unfold step_V, needs in *. simpl. destruct (b_kind b); eauto.
+    - destruct ND as [[l0 [EL IL]] [r0 [ER IR]]]. rewrite EL, ER.
+      destruct (look_some st l0 IL) as [rl ->]. destruct (look_some st r0 IR) as [rr ->]. eauto.
+    - destruct ND as [l0 [EL IL]]. rewrite EL. destruct (look_some st l0 IL) as [rl ->]. eauto. }
+  rewrite S1. apply IH. eapply refs_before_mono; [|exact RB].
+  rewrite (step_V_ids _ _ _ _ S1). simpl. intros z [->|H]; rewrite in_app_iff; simpl; auto.
+Qed.
+
+Lemma all_species_V_defined P ops m :
+  (forall X l, In (X, l) m -> (exists fin, run_anchors X ops [] = Some fin) /\ map fst l = branches_at X ops) ->
+  (forall X, refs_before [] (branches_at X ops)) ->
+  exists lays, all_species (species_V P) ops m = Some lays.
+Proof.
+  intros HM RB. induction m as [|[X l] m IH]; simpl; eauto.
+  destruct (HM X l (or_introl eq_refl)) as [[fin ->] EL].
+  destruct (run_V_defined P l (init P)) as [st R]; [simpl; rewrite EL; apply RB|].
+  destruct IH as [rest ->]; [intros; apply HM; now right|].
+  unfold species_V. rewrite R. eauto.
+Qed.
+
+Theorem layout_defined o P S O r sizes : valid_rec S O r -> exists t, layout o P S r sizes = Some t.
+Proof.
+  intros V. pose proof (valid_rec_noinv _ _ _ V) as N. pose proof (valid_rec_species_in _ _ _ V) as SI.
+  assert (forall sizes', exists t, layout Vertical P S r sizes' = Some t) as KV.
+  { intros sizes'. unfold layout. rewrite (all_ops_defined S r N).
+    set (ops := flat_map (fun X => turn_ops X [] r) (spost S)).
+    destruct (all_species_V_defined P ops (measure_all ops (spost S) sizes')) as [lays ->]; eauto.
+    - intros X l H. split.
+      + destruct (anchors_run S r ops X N SI (all_ops_defined S r N)) as [fin [R _]]. eauto.
+      + destruct (measure_all_spec ops (spost S) sizes') as [_ B]. eauto.
+    - intros X. apply wflook_refs. unfold ops. apply ops_look; auto. }
+  destruct o; [apply KV|]. rewrite mirror. destruct (KV (map tp sizes)) as [t ->]. simpl. eauto.
 Qed.
